@@ -240,3 +240,39 @@ package store
 //@   exit [installed-state-is-set] result == nil ==> uint8(metaCopy.State) != 0 && metaCopy.ID == meta.ID
 //@   exit [transition-was-valid] result == nil ==> uint8(metaCopy.State) >= uint8(currentState)
 //@   ensures [failure-logs-at-most-once] regionLogs <= old(regionLogs) + 1
+
+// C22 kernel (one store, sequential): every committed command entry is applied exactly
+// once, in log order, and its proposal is answered exactly once with the outcome of that
+// same command. The apply handler and completeProposal are recorded in ghost state:
+// pipelineApplies / pipelineCompletions count them, answerMismatches counts completions
+// whose id or response is not that of the latest applied command.
+//@ ghost var pipelineApplies Int
+//@ ghost var lastAppliedReqID uint64
+//@ ghost var lastApplyResp *pb.RaftCmdResponse
+//@ ghost var lastApplyFailed bool
+//@ ghost var pipelineCompletions Int
+//@ ghost var answerMismatches Int
+//@ func field (commandPipeline).applier
+//@   trusted
+//@   ghost pipelineApplies = pipelineApplies + 1
+//@   ghost lastAppliedReqID = p0.GetHeader().GetRequestId()
+//@   ghost lastApplyResp = result
+//@   ghost lastApplyFailed = result1 != nil
+//@   modifies heap
+
+// completeProposal: the proposal leaves the table before it is answered, so a second
+// completion of the same id finds nothing (answered at most once); other proposals are
+// untouched. Its ghost clauses define the completion counters used by applyEntries.
+//@ func (*commandPipeline).completeProposal
+//@   property C22
+//@   ghost pipelineCompletions = pipelineCompletions + 1
+//@   ghost answerMismatches = ((id == lastAppliedReqID && ((lastApplyFailed && resp == nil && err != nil) || (!lastApplyFailed && resp == lastApplyResp && err == nil))) ? answerMismatches : answerMismatches + 1)
+//@   ensures [removed-before-answered] cp != nil && id != 0 ==> !has(cp.proposals, id)
+//@   ensures [other-proposals-untouched] cp != nil ==> (forall k uint64 :: k != id ==> has(cp.proposals, k) == old(has(cp.proposals, k)))
+
+//@ func (*commandPipeline).applyEntries
+//@   property C22
+//@   ensures [every-applied-command-answered-once] pipelineApplies - old(pipelineApplies) == pipelineCompletions - old(pipelineCompletions)
+//@   ensures [answer-is-that-commands-outcome] answerMismatches == old(answerMismatches)
+//@   ensures [apply-failure-stops-the-batch] result == nil ==> !lastApplyFailed || pipelineApplies == old(pipelineApplies)
+//@   loop 1 invariant [in-step] cp != nil && pipelineApplies >= old(pipelineApplies) && pipelineApplies - old(pipelineApplies) == pipelineCompletions - old(pipelineCompletions) && answerMismatches == old(answerMismatches) && (pipelineApplies > old(pipelineApplies) ==> !lastApplyFailed)
